@@ -32,6 +32,17 @@ Proof.
     + rewrite app_nth2 by (rewrite HG; exact Hge). now rewrite HG.
 Qed.
 
+Lemma norm_dim_lt' n z d : norm_dim n z = Some d -> d < n.
+Proof.
+  unfold norm_dim.
+  destruct ((0 <=? z)%Z && (z <? Z.of_nat n)%Z) eqn:E1.
+  - apply andb_true_iff in E1. destruct E1 as [A B]. apply Z.leb_le in A. apply Z.ltb_lt in B.
+    intros H; inversion H; subst. lia.
+  - destruct ((- Z.of_nat n <=? z)%Z && (z <? 0)%Z) eqn:E2; [|discriminate].
+    apply andb_true_iff in E2. destruct E2 as [A B]. apply Z.leb_le in A. apply Z.ltb_lt in B.
+    intros H; inversion H; subst. lia.
+Qed.
+
 Section Cat.
 Variable gshape : gid -> shape.
 Variable gaxes : gid -> axes.
@@ -168,5 +179,49 @@ Proof.
   - exists (0, i). split; [apply in_map_iff; exists 0; split; [reflexivity|apply in_seq; lia]|].
     unfold entry_grid. cbn [fst snd nth_error]. rewrite Hk0. now apply nth_error_nth'.
   - intros ax Hax; discriminate Hax.
+Qed.
+Lemma length_ins_nth {A} (l : list A) k x : k <= length l -> length (ins_nth l k x) = S (length l).
+Proof. intros H. unfold ins_nth. rewrite app_length, firstn_length. cbn [length]. rewrite skipn_length. lia. Qed.
+
+(* torch.stack of image batches has one dimension more than any grid accounts for: the result is never a (non-empty)
+   batch; in particular it is sound *)
+Theorem stack_sound d a args :
+  all_image_batches (a :: args) ->
+  res_sound gshape (a :: args) (run_op gshape gaxes (OStack d) (a :: args))
+  /\ (0 < nent (t_shape a) -> forall o, run_op gshape gaxes (OStack d) (a :: args) = OOne o -> v_kind o = TPlain).
+Proof.
+  intros Hall. set (l := a :: args) in *.
+  assert (Hrun : run_op gshape gaxes (OStack d) l = dispatch_batch gshape false (OStack d) l).
+  { unfold run_op. subst l. now rewrite choose_disp_image_batches. }
+  rewrite Hrun. unfold dispatch_batch.
+  destruct (all_batches_kinds l Hall) as (Htb & Hgr). rewrite Htb.
+  inversion Hall as [|? ? (g0 & Hk0 & Hwf0) Hrest]; subst.
+  unfold wf_val in Hwf0. rewrite Hk0 in Hwf0. destruct Hwf0 as (HL0 & H40 & HF0).
+  assert (Hgrid : exists gf, tf_grid_batch (OStack d) (kw_of (OStack d))
+                    (hd 0 (flat_map (fun x => match t_kind x with TPlain => [] | _ => [ndim (t_shape x)] end) l)) (map t_kind l) = GFlat gf
+                    /\ gf = g0).
+  { unfold tf_grid_batch. rewrite Hgr. subst l. cbn [map]. unfold grids_of at 1. rewrite Hk0.
+    exists g0. split; [|reflexivity]. repeat match goal with |- context [if ?c then _ else _] => destruct c end; unfold grids_of; rewrite ?Hk0; reflexivity. }
+  destruct Hgrid as (gf & Hgrid & ->). rewrite Hgrid.
+  destruct (data_sem (OStack d) (map t_shape l)) as [e|dd|ds] eqn:ED; [split; [exact I|discriminate]| |].
+  2:{ exfalso. cbn in ED. repeat match type of ED with context [match ?c with _ => _ end] => destruct c end; discriminate ED. }
+  cbn [tf_axes class_of flat_of].
+  (* the stacked data has one more dimension *)
+  assert (Hnd : ndim (d_shape dd) = S (ndim (t_shape a))).
+  { subst l. cbn -[nth_shape] in ED. cbn [nth_shape nth] in ED.
+    match type of ED with context [norm_dim ?n ?z] => destruct (norm_dim n z) as [nd|] eqn:En; [|discriminate ED] end.
+    match type of ED with context [if ?c then _ else _] => destruct c; [|discriminate ED] end.
+    injection ED as <-. cbn [d_shape]. apply norm_dim_lt' in En. unfold ndim in *. apply length_ins_nth. lia. }
+  unfold one_kind. destruct (res_batch gshape (d_shape dd) (Some g0)) as [e|k] eqn:ER; [split; [exact I|discriminate]|].
+  destruct k as [|fl gs'|fl g].
+  - split; [unfold res_sound, out_sound; cbn; exact I|]. intros _ o Ho. injection Ho as <-. reflexivity.
+  - pose proof ER as ER'. apply res_batch_typed in ER. destruct ER as (-> & -> & HN & H4 & HF).
+    destruct g0 as [|g1 gr].
+    + split.
+      * unfold res_sound, out_sound; cbn [v_kind v_shape v_src]. split; [unfold wf_val, val_of; cbn; auto|]. intros i Hi; cbn in Hi; lia.
+      * intros Hpos. cbn in HL0. lia.
+    + exfalso. apply res_batch_typed_ndim in ER'. inversion HF0 as [|? ? Hg1 _]; subst.
+      rewrite Hg1, skipn_length in ER'. unfold ndim in *. lia.
+  - exfalso. exact (res_batch_not_single gshape _ _ _ _ ER).
 Qed.
 End Cat.
